@@ -14,11 +14,12 @@
    Value and attribute level (RdfVal.v, RdfValProofs.v): the literal mapping both ways and the
    predicate an attribute of an element travels under — every value of the claimed kinds comes
    back as itself (C07_value theorems), a qualified name and a foreign datatype as names of the
-   same URI, under the attribute of the same URI (C07_attribute_roundtrip); what rdflib and the
+   same URI, under the attribute of the same URI (C07_attribute_roundtrip), and a whole element
+   — all its pairs — is read back as one record holding them (C07_element_roundtrip); what rdflib and the
    TriG syntax do to a term in between is an oracle (the term read is the term written),
    measured on every run. *)
 From Coq Require Import String List Bool ZArith.
-From Prov Require Import Str Sexp Tables Nsm NsmProofs Values Record JsonProofs Rdf RdfProofs Rdfq RdfqProofs RdfVal RdfValProofs.
+From Prov Require Import Str Sexp Tables Nsm NsmProofs Values Record World JsonProofs Rdf RdfProofs Rdfq RdfqProofs RdfVal RdfValProofs.
 Import ListNotations.
 Open Scope string_scope.
 
@@ -122,6 +123,46 @@ Example C07_attribute_applies :
     rdf_attr_back (mkCtx None []) JsonRecProofs.x_m (enc_elem_pred (JsonRecProofs.x_q "k")) (RUri "http://e/v") = BOk a' (VQn q') /\
     rdf_attr_back (mkCtx None []) JsonRecProofs.x_m (enc_elem_pred (JsonRecProofs.x_q "k")) (RLit "5" (Some (xsdu "int")) None) = BOk a' (VInt 5%Z).
 Proof. exact rdf_attr_applies. Qed.
+
+(* ---- element level: the triples written for the (attribute, value) pairs of an element, read in the
+   document's manager and handed to new_record as the reader does, append to the container exactly one record
+   of that kind, identified by a name of the subject's URI, whose attribute dictionary is built from the pairs
+   read back (pair_back: name of the same URI, value the same up to the namespace objects naming its URIs) *)
+Theorem C07_element_roundtrip : forall par ft b kind q q' pairs pairs',
+  let c := mkCtx par ft in
+  let m := bns b in
+  UriRes par m (qn_uri q) q' -> qn_uri q <> "" ->
+  Forall2 (pair_back c m) pairs pairs' ->
+  exists ts,
+    rdf_element_triples pairs = Some ts /\
+    rdf_read_element par ft b kind (qn_uri q) ts
+    = (add_rec_to b (mkRec kind (Some q') (add_pairs pairs' [])), OK (mkRec kind (Some q') (add_pairs pairs' []))).
+Proof. exact rdf_element_roundtrip. Qed.
+Print Assumptions C07_element_roundtrip.
+
+Example C07_element_applies :
+  exists q' a' v', qn_uri q' = "http://e/s" /\ qn_uri a' = "http://e/k" /\ qn_uri v' = "http://e/v" /\
+    exists ts, rdf_element_triples [(JsonRecProofs.x_q "k", VInt 5%Z); (JsonRecProofs.x_q "k", VQn (JsonRecProofs.x_q "v"))] = Some ts /\
+      rdf_read_element None [] JsonRecProofs.x_b "Entity" "http://e/s" ts
+      = (add_rec_to JsonRecProofs.x_b (mkRec "Entity" (Some q') (add_pairs [(a', VInt 5%Z); (a', VQn v')] [])),
+         OK (mkRec "Entity" (Some q') (add_pairs [(a', VInt 5%Z); (a', VQn v')] []))).
+Proof. exact rdf_element_applies. Qed.
+
+(* ---- relations: what the value level says about their formal arguments.  An endpoint reaches the factory as the
+   subject/object URI string (binary triple) or as the decoded name (property of a qualified node): stored as a
+   name of exactly that URI; a time as the decoded literal: stored as the instant with its offset *)
+Theorem C07_endpoint_string : forall c m u q', UriRes (cparent c) m u q' -> u <> "" ->
+  qn_value c m (AStr u) = Done m (Some (VQn q')).
+Proof. exact rdf_endpoint_string. Qed.
+Theorem C07_endpoint_term : forall c m u q', UriRes (cparent c) m u q' ->
+  exists va, rdf_decode (cparent c) m (RUri u) = OK va /\ qn_value c m va = Done m (Some (VQn q')).
+Proof. exact rdf_endpoint_term. Qed.
+Theorem C07_relation_time : forall c m t, valid_dt t = true ->
+  exists va, rdf_encode (VTime t) = Some (RLit (iso_print t) (Some (xsdu "dateTime")) None) /\
+             rdf_decode (cparent c) m (RLit (iso_print t) (Some (xsdu "dateTime")) None) = OK va /\
+             time_value m va = Done m (Some (VTime t)).
+Proof. exact rdf_relation_time. Qed.
+Print Assumptions C07_relation_time.
 
 (* the open finding C07-F3 in the model: with a namespace declared under the prefix http the URI of a
    qualified name does not come back *)
